@@ -731,6 +731,8 @@ class VerdictTaint:
         self.fields: dict[tuple[str, str], frozenset] = {}
         self.rets: dict[str, frozenset] = {}
         self.changed = True
+        self._nodes: dict[str, list] = {}
+        self._callees: dict[int, list] = {}
         proto = [c for c in repo.classes.values() if c.name == "EvaluableArchitecture"]
         self.ev_classes = {c.fq for c in repo.classes.values() if any(p in repo.mro(c) for p in proto)}
         for f in repo.all_functions():
@@ -775,13 +777,19 @@ class VerdictTaint:
                 for c in self.repo.mro(f.cls):
                     out |= self.fields.get((c.fq, n.attr), frozenset())
             elif isinstance(n, ast.Call):
-                try:
-                    cs, _how = self.T.callees(f, n, byname_fallback=False)
-                except Exception:  # noqa: BLE001
-                    cs = []
-                for c in cs:
+                for c in self.callees(f, n):
                     out |= self.rets.get(c.fq, frozenset())
         return out
+
+    def callees(self, f: FuncInfo, n: ast.Call) -> list[FuncInfo]:
+        k = id(n)
+        if k not in self._callees:
+            try:
+                cs, _how = self.T.callees(f, n, byname_fallback=False)
+            except Exception:  # noqa: BLE001
+                cs = []
+            self._callees[k] = cs
+        return self._callees[k]
 
     def _bind(self, f: FuncInfo, target: ast.AST, tags: frozenset) -> None:
         if not tags:
@@ -793,7 +801,9 @@ class VerdictTaint:
                 self._join(self.fields, (f.cls.fq, n.attr), tags)
 
     def _function(self, f: FuncInfo) -> None:
-        for n in own_nodes(f.node):
+        if f.fq not in self._nodes:
+            self._nodes[f.fq] = [n for n in own_nodes(f.node) if isinstance(n, (ast.Assign, ast.AnnAssign, ast.AugAssign, ast.NamedExpr, ast.For, ast.AsyncFor, ast.comprehension, ast.With, ast.AsyncWith, ast.Return, ast.Yield, ast.YieldFrom, ast.Call))]
+        for n in self._nodes[f.fq]:
             if isinstance(n, ast.Assign):
                 t = self.tags(f, n.value)
                 for tg in n.targets:
@@ -823,11 +833,7 @@ class VerdictTaint:
                     argt_all = argt | recv_t
                 else:
                     argt_all = argt
-                try:
-                    cs, _how = self.T.callees(f, n, byname_fallback=False)
-                except Exception:  # noqa: BLE001
-                    cs = []
-                for c in cs:
+                for c in self.callees(f, n):
                     params = c.param_names[1:] if (c.is_method and not c.is_staticmethod) else c.param_names
                     for i, a in enumerate(n.args):
                         if i < len(params):
